@@ -1862,6 +1862,7 @@ theorem bcond_sat {tbl : ClassTable} {T : BoolTable} {ρ : Env} {o : Obj} {G : K
     constructor <;> intro hh <;> simp only [holdsB] at hh <;> rw [hh] at this <;>
       simpa [BCond.acIdeal, AC.invert, AC.Sat, Cond.kAt] using this
   | .other c, _ => by simp [BCond.acIdeal, AC.invert, AC.Sat]
+  | .capture c, _ => by simp [BCond.acIdeal, AC.invert, AC.Sat]
   | .opaque i, _ => by simp [BCond.acIdeal, AC.invert, AC.Sat]
   | .not b, h => by
     have ih := bcond_sat (ρ := ρ) b (by simpa [BCond.leaves] using h)
@@ -1967,5 +1968,443 @@ theorem narrowB_keeps_core {tbl : ClassTable} {T : BoolTable} {ρ : Env} {o : Ob
     · rw [Ty.beq_mem' tbl hb.2]; exact hi
     · rw [Ty.beq_mem' tbl hb.1]; exact hi
   · cases hD
+
+/-! ### 13. the constraint extracted from the value of a condition, when `and` values do not leak -/
+
+theorem isNull_iff (a : AC) : a.isNull = true ↔ a = .null := by
+  cases a <;> simp [AC.isNull]
+
+theorem extL_eq_map (T : BoolTable) : ∀ (bs : List BCond), BCond.extL T bs = bs.map fun b => (b.cv T).ext
+  | [] => rfl
+  | b :: bs => by simp [BCond.extL, extL_eq_map T bs]
+
+theorem mem_flatL (T : BoolTable) {m : AC} : ∀ {bs : List BCond},
+    m ∈ BCond.flatL T bs ↔ ∃ b ∈ bs, m ∈ (b.cv T).flat
+  | [] => by simp [BCond.flatL]
+  | b :: bs => by simp [BCond.flatL, mem_flatL T (bs := bs)]
+
+theorem wfBL_iff : ∀ (bs : List BCond), BCond.wfBL bs = true ↔ ∀ b ∈ bs, b.wfB = true
+  | [] => by simp [BCond.wfBL]
+  | b :: bs => by simp [BCond.wfBL, wfBL_iff bs]
+
+theorem flat_ne_of_members {v : CVal} (h : v.members ≠ []) : v.flat ≠ [] := by
+  unfold CVal.flat
+  split
+  · exact h
+  · simpa using h
+
+mutual
+theorem cv_members_ne (T : BoolTable) : ∀ (b : BCond), b.wfB = true → (b.cv T).members ≠ []
+  | .leaf _, _ => by simp [BCond.cv]
+  | .other _, _ => by simp [BCond.cv]
+  | .capture _, _ => by simp [BCond.cv]
+  | .opaque _, _ => by simp [BCond.cv]
+  | .not _, _ => by simp [BCond.cv]
+  | .and bs, hw => by
+    simp only [BCond.wfB, Bool.and_eq_true, Bool.not_eq_true', List.isEmpty_eq_false_iff] at hw
+    have := flatL_ne T bs hw.1 hw.2
+    simp only [BCond.cv]
+    split <;> simpa using this
+  | .or bs, hw => by
+    simp only [BCond.wfB, Bool.and_eq_true, Bool.not_eq_true', List.isEmpty_eq_false_iff] at hw
+    simpa [BCond.cv] using flatL_ne T bs hw.1 hw.2
+theorem flatL_ne (T : BoolTable) : ∀ (bs : List BCond), bs ≠ [] → BCond.wfBL bs = true → BCond.flatL T bs ≠ []
+  | [], h, _ => absurd rfl h
+  | b :: bs, _, hw => by
+    simp only [BCond.wfBL, Bool.and_eq_true] at hw
+    simp only [BCond.flatL, ne_eq, List.append_eq_nil_iff, not_and]
+    intro h0
+    exact absurd h0 (flat_ne_of_members (cv_members_ne T b hw.1))
+end
+
+/-- the base constraint of a union of members (`OrConstraint.make`, or the member itself) -/
+def baseOf (ms : List AC) : AC := match ms with
+  | [m] => m
+  | ms => AC.mkOr ms
+
+theorem ext_eq (v : CVal) : v.ext = if v.top.isNull then baseOf v.members else v.top := rfl
+
+theorem sat_baseOf {G : K → Prop} {ms : List AC} (h : ∃ m ∈ ms, AC.Sat G m) : AC.Sat G (baseOf ms) := by
+  unfold baseOf
+  split
+  · obtain ⟨m, hm, hs⟩ := h; simp only [List.mem_singleton] at hm; subst hm; exact hs
+  · exact sat_mkOr h
+
+theorem sat_baseOf_invert {G : K → Prop} {ms : List AC} (h : ∀ m ∈ ms, AC.Sat G m.invert) :
+    AC.Sat G (baseOf ms).invert := by
+  unfold baseOf
+  split
+  · exact h _ (by simp)
+  · exact sat_mkOr_invert h
+
+/-- the two invariants of a value: its extracted constraint, and its members as an enclosing union sees them -/
+def CvOk (G : K → Prop) (v : CVal) (t : Bool) : Prop :=
+  if t then AC.Sat G v.ext ∧ ∃ m ∈ v.flat, AC.Sat G m
+  else AC.Sat G v.ext.invert ∧ ∀ m ∈ v.flat, AC.Sat G m.invert
+
+theorem cvOk_single {G : K → Prop} {a : AC} {t : Bool}
+    (h : if t then AC.Sat G a else AC.Sat G a.invert) : CvOk G ⟨.null, [a]⟩ t := by
+  unfold CvOk
+  cases t <;> simp only [Bool.false_eq_true, if_false, if_true] at h ⊢ <;>
+    simp [ext_eq, baseOf, CVal.flat, AC.isNull, h]
+
+mutual
+theorem cv_sat {tbl : ClassTable} {T : BoolTable} {ρ : Env} {o : Obj} {G : K → Prop}
+    (hnl : T.andValueLeaks = false) : ∀ (b : BCond), b.wfB = true →
+    (∀ c ∈ b.leaves, G (c.kAt T (holds tbl c o))) → CvOk G (b.cv T) (holdsB tbl ρ b o)
+  | .leaf c, _, h => by
+    apply cvOk_single
+    have := h c (by simp [BCond.leaves])
+    simp only [holdsB]
+    by_cases hh : holds tbl c o = true
+    · rw [hh] at this; simpa [hh, AC.Sat, Cond.kAt] using this
+    · have hf : holds tbl c o = false := by simpa using hh
+      rw [hf] at this; simpa [hf, AC.invert, AC.Sat, Cond.kAt] using this
+  | .other c, _, _ => by
+    simp only [BCond.cv]; apply cvOk_single; split <;> simp [AC.invert, AC.Sat]
+  | .capture c, _, _ => by
+    simp only [BCond.cv]; apply cvOk_single; split <;> simp [AC.invert, AC.Sat]
+  | .opaque i, _, _ => by
+    simp only [BCond.cv]; apply cvOk_single; split <;> simp [AC.invert, AC.Sat]
+  | .not b, hw, h => by
+    have ih := cv_sat (ρ := ρ) hnl b (by simpa [BCond.wfB] using hw) (by simpa [BCond.leaves] using h)
+    simp only [BCond.cv, holdsB]
+    apply cvOk_single
+    unfold CvOk at ih
+    cases hh : holdsB tbl ρ b o <;> simp only [hh, Bool.not_false, Bool.not_true, Bool.false_eq_true, if_false,
+      if_true] at ih ⊢
+    · exact ih.1
+    · exact sat_invert_invert _ ih.1
+  | .and bs, hw, h => by
+    simp only [BCond.wfB, Bool.and_eq_true, Bool.not_eq_true', List.isEmpty_eq_false_iff] at hw
+    have ih := cv_satL (ρ := ρ) hnl bs ((wfBL_iff bs).mp hw.2) (by simpa [BCond.leaves] using h)
+    have hms : ∀ m ∈ (BCond.flatL T bs).map (fun _ => AC.null), m = AC.null := by
+      intro m hm; obtain ⟨_, _, rfl⟩ := List.mem_map.mp hm; rfl
+    have hne : ∃ m, m ∈ (BCond.flatL T bs).map (fun _ => AC.null) := by
+      obtain ⟨m, hm⟩ := List.exists_mem_of_ne_nil _ (flatL_ne T bs hw.1 hw.2)
+      exact ⟨.null, List.mem_map.mpr ⟨m, hm, rfl⟩⟩
+    simp only [BCond.cv, hnl, Bool.false_eq_true, if_false, holdsB]
+    generalize hms' : (BCond.flatL T bs).map (fun _ => AC.null) = ms at hms hne
+    generalize htop : AC.mkAnd (BCond.extL T bs).reverse = top
+    unfold CvOk
+    cases hh : holdsAll tbl ρ bs o <;> simp only [Bool.false_eq_true, if_false, if_true]
+    · -- some operand is false
+      have hex : ∃ b ∈ bs, holdsB tbl ρ b o = false := by
+        rw [Bool.eq_false_iff, ne_eq, holdsAll_iff] at hh
+        by_cases hx : ∃ b ∈ bs, holdsB tbl ρ b o = false
+        · exact hx
+        · exact absurd (fun b hb => by
+            cases hv : holdsB tbl ρ b o with
+            | true => rfl
+            | false => exact absurd ⟨b, hb, hv⟩ hx) hh
+      obtain ⟨b, hb, hv⟩ := hex
+      have hb' := ih b hb
+      unfold CvOk at hb'
+      simp only [hv, Bool.false_eq_true, if_false] at hb'
+      have htopinv : AC.Sat G top.invert := by
+        rw [← htop, extL_eq_map]
+        exact sat_mkAnd_invert ⟨_, List.mem_reverse.mpr (List.mem_map.mpr ⟨b, hb, rfl⟩), hb'.1⟩
+      simp only [ext_eq, CVal.flat]
+      cases hn : top.isNull
+      · simp only [Bool.false_eq_true, if_false]
+        refine ⟨htopinv, ?_⟩
+        intro m hm
+        obtain ⟨m0, hm0, rfl⟩ := List.mem_map.mp hm
+        rw [hms m0 hm0]
+        have : nonNull [AC.null, top] = [top] := by
+          simp only [nonNull, List.filter_cons, hn, Bool.not_false, if_true, List.filter_nil]
+          rfl
+        rw [this]
+        exact sat_mkAnd_invert ⟨top, by simp, htopinv⟩
+      · simp only [if_true]
+        refine ⟨sat_baseOf_invert (fun m hm => by rw [hms m hm]; simp [AC.invert, AC.Sat]), ?_⟩
+        intro m hm; rw [hms m hm]; simp [AC.invert, AC.Sat]
+    · -- every operand is true
+      rw [holdsAll_iff] at hh
+      have htops : AC.Sat G top := by
+        rw [← htop, extL_eq_map]
+        apply sat_mkAnd
+        intro c hc
+        obtain ⟨b, hb, rfl⟩ := List.mem_map.mp (List.mem_reverse.mp hc)
+        have hb' := ih b hb
+        unfold CvOk at hb'
+        simp only [hh b hb, if_true] at hb'
+        exact hb'.1
+      obtain ⟨m1, hm1⟩ := hne
+      simp only [ext_eq, CVal.flat]
+      cases hn : top.isNull
+      · simp only [Bool.false_eq_true, if_false]
+        refine ⟨htops, _, List.mem_map.mpr ⟨m1, hm1, rfl⟩, ?_⟩
+        rw [hms m1 hm1]
+        have : nonNull [AC.null, top] = [top] := by
+          simp only [nonNull, List.filter_cons, hn, Bool.not_false, if_true, List.filter_nil]
+          rfl
+        rw [this]
+        exact sat_mkAnd (by intro c hc; simp only [List.mem_singleton] at hc; subst hc; exact htops)
+      · simp only [if_true]
+        exact ⟨sat_baseOf ⟨m1, hm1, by rw [hms m1 hm1]; simp [AC.Sat]⟩, m1, hm1, by rw [hms m1 hm1]; simp [AC.Sat]⟩
+  | .or bs, hw, h => by
+    simp only [BCond.wfB, Bool.and_eq_true, Bool.not_eq_true', List.isEmpty_eq_false_iff] at hw
+    have ih := cv_satL (ρ := ρ) hnl bs ((wfBL_iff bs).mp hw.2) (by simpa [BCond.leaves] using h)
+    simp only [BCond.cv, holdsB]
+    unfold CvOk
+    simp only [ext_eq, CVal.flat, AC.isNull, if_true]
+    cases hh : holdsAny tbl ρ bs o <;> simp only [Bool.false_eq_true, if_false, if_true]
+    · have hall : ∀ m ∈ BCond.flatL T bs, AC.Sat G m.invert := by
+        intro m hm
+        obtain ⟨b, hb, hmb⟩ := (mem_flatL T).mp hm
+        have hb' := ih b hb
+        unfold CvOk at hb'
+        have hv : holdsB tbl ρ b o = false := by
+          cases hv : holdsB tbl ρ b o with
+          | false => rfl
+          | true =>
+            rw [Bool.eq_false_iff, ne_eq, holdsAny_iff] at hh
+            exact absurd ⟨b, hb, hv⟩ hh
+        simp only [hv, Bool.false_eq_true, if_false] at hb'
+        exact hb'.2 m hmb
+      exact ⟨sat_baseOf_invert hall, hall⟩
+    · rw [holdsAny_iff] at hh
+      obtain ⟨b, hb, hv⟩ := hh
+      have hb' := ih b hb
+      unfold CvOk at hb'
+      simp only [hv, if_true] at hb'
+      obtain ⟨m, hm, hs⟩ := hb'.2
+      have hmem : m ∈ BCond.flatL T bs := (mem_flatL T).mpr ⟨b, hb, hm⟩
+      exact ⟨sat_baseOf ⟨m, hmem, hs⟩, m, hmem, hs⟩
+theorem cv_satL {tbl : ClassTable} {T : BoolTable} {ρ : Env} {o : Obj} {G : K → Prop}
+    (hnl : T.andValueLeaks = false) : ∀ (bs : List BCond), (∀ b ∈ bs, b.wfB = true) →
+    (∀ c ∈ BCond.leavesL bs, G (c.kAt T (holds tbl c o))) →
+    ∀ b ∈ bs, CvOk G (b.cv T) (holdsB tbl ρ b o)
+  | [], _, _ => by simp
+  | b' :: bs, hw, h => by
+    simp only [BCond.leavesL, List.mem_append] at h
+    exact List.forall_mem_cons.mpr
+      ⟨cv_sat (ρ := ρ) hnl b' (hw b' (by simp)) (fun c hc => h c (Or.inl hc)),
+       cv_satL (ρ := ρ) hnl bs (fun b hb => hw b (by simp [hb])) (fun c hc => h c (Or.inr hc))⟩
+end
+
+/-! ### 14. `match` statements with guards -/
+
+/-- a notion of "good concrete constraint" closed under `one_of` / `all_of` -/
+structure Closed (Good : K → Prop) : Prop where
+  oneOf : ∀ ks, (∃ k ∈ ks, Good k) → Good (.oneOf ks)
+  allOf : ∀ ks, (∀ k ∈ ks, Good k) → Good (.allOf ks)
+
+theorem groupK_good {Good : K → Prop} (C : Closed Good) {ks : List K} (h : ∀ k ∈ ks, Good k) :
+    Good (groupK ks) := by
+  unfold groupK
+  split
+  · exact h _ (by simp)
+  · exact C.allOf _ h
+
+mutual
+theorem satG_apply {Good : K → Prop} (C : Closed Good) : ∀ (a : AC), AC.Sat Good a → ∀ k ∈ a.apply, Good k
+  | .null, _, k, hk => by simp [AC.apply] at hk
+  | .k c, h, k, hk => by
+    simp only [AC.apply, List.mem_singleton] at hk; subst hk; exact h
+  | .and cs, h, k, hk => by
+    simp only [AC.apply] at hk
+    exact satG_applyL C cs h k hk
+  | .equiv cs, h, k, hk => by
+    simp only [AC.apply] at hk
+    exact satG_applyL C cs h k hk
+  | .provider, _, k, hk => by simp [AC.apply] at hk
+  | .otherK, _, k, hk => by simp [AC.apply] at hk
+  | .or cs, h, k, hk => by
+    simp only [AC.apply, groups_eq] at hk
+    cases hcs : cs.map AC.apply with
+    | nil => rw [hcs] at hk; simp at hk
+    | cons g gs =>
+      rw [hcs] at hk
+      simp only at hk
+      split at hk
+      · simp at hk
+      · simp only [List.mem_singleton] at hk
+        subst hk
+        apply C.oneOf
+        obtain ⟨c, hc, hsat⟩ := sat_any_pick cs h
+        have : c.apply ∈ g :: gs := by rw [← hcs]; exact List.mem_map.mpr ⟨c, hc, rfl⟩
+        exact ⟨groupK c.apply, List.mem_map.mpr ⟨_, this, rfl⟩, groupK_good C (satG_apply C c hsat)⟩
+theorem satG_applyL {Good : K → Prop} (C : Closed Good) : ∀ (cs : List AC), AC.SatAll Good cs →
+    ∀ k ∈ AC.applyL cs, Good k
+  | [], _, k, hk => by simp [AC.applyL] at hk
+  | c :: cs, h, k, hk => by
+    simp only [AC.applyL, List.mem_append] at hk
+    rcases hk with hk | hk
+    · exact satG_apply C c h.1 k hk
+    · exact satG_applyL C cs h.2 k hk
+end
+
+/-- the constraint keeps the object *and an invariant `P` of the members* -/
+def KeepsP (tbl : ClassTable) (T : BoolTable) (P : Ty → Prop) (o : Obj) (k : K) : Prop :=
+  ∀ m, P m → mem tbl o m = true → ∃ r ∈ applyK tbl T k m, mem tbl o r = true ∧ P r
+
+theorem keepsP_closed (tbl : ClassTable) (T : BoolTable) (P : Ty → Prop) (o : Obj) :
+    Closed (KeepsP tbl T P o) where
+  oneOf := by
+    intro ks ⟨k, hk, hkeep⟩ m hP hm
+    obtain ⟨r, hr, hor⟩ := hkeep m hP hm
+    simp only [applyK]
+    exact ⟨r, mem_applyOne.mpr ⟨k, hk, hr⟩, hor⟩
+  allOf := by
+    intro ks h m hP hm
+    simp only [applyK]
+    exact applySeq_keeps_inv (P := P) (fun k hk m' hP' hm' => h k hk m' hP' hm') ⟨m, by simp, hm, hP⟩
+
+theorem gcaseKs_zero (T : BoolTable) (c : MCase) (cs : List MCase) : gcaseKs T (c :: cs) 0 = c.posKs T := by
+  simp [gcaseKs]
+
+theorem gcaseKs_succ (T : BoolTable) (c : MCase) (cs : List MCase) (i : Nat) :
+    gcaseKs T (c :: cs) (i + 1) = c.negKs T ++ gcaseKs T cs i := by
+  simp [gcaseKs, List.append_assoc]
+
+theorem gcaseKs_nil (T : BoolTable) (i : Nat) : gcaseKs T [] i = [] := by
+  simp [gcaseKs]
+
+/-- the side conditions on the guards of a statement: well-formed trees whose atoms on the subject are,
+in the polarity they have for the object, constraints that keep the object and the invariant -/
+def GuardsOk (tbl : ClassTable) (T : BoolTable) (P : Ty → Prop) (o : Obj) (cs : List MCase) : Prop :=
+  ∀ c ∈ cs, ∀ g, c.guard = some g →
+    g.wfB = true ∧ ∀ a ∈ g.leaves, KeepsP tbl T P o (a.kAt T (holds tbl a o))
+
+theorem or_null_apply {xs : List AC} (h : AC.null ∈ xs) : (AC.or xs).apply = [] := by
+  simp only [AC.apply, groups_eq]
+  cases hx : xs.map AC.apply with
+  | nil => rfl
+  | cons g gs =>
+    simp only
+    have : ([] : List K) ∈ g :: gs := by rw [← hx]; exact List.mem_map.mpr ⟨.null, h, rfl⟩
+    rcases List.mem_cons.mp this with h0 | h0
+    · simp [← h0]
+    · have : gs.any List.isEmpty = true := List.any_eq_true.mpr ⟨[], h0, rfl⟩
+      simp [this]
+
+/-- a conjunction with a `NULL` conjunct: its inverse applies nothing (`OR(…, NULL)`) -/
+theorem mkAnd_null_invert_apply (cs : List AC) (h : AC.null ∈ cs) : (AC.mkAnd cs).invert.apply = [] := by
+  have hin0 : AC.null ∈ spliceAnd cs := by
+    induction cs with
+    | nil => simp at h
+    | cons c cs ih =>
+      rcases List.mem_cons.mp h with rfl | h'
+      · simp [spliceAnd]
+      · cases c <;> simp [spliceAnd, ih h']
+  have hin := null_mem_absorbAnd hin0
+  unfold AC.mkAnd
+  generalize absorbAnd (spliceAnd cs) = xs at hin
+  match xs, hin with
+  | [c], hin => simp only [List.mem_singleton] at hin; subst hin; rfl
+  | c :: d :: rest, hin =>
+    simp only [AC.invert]
+    apply or_null_apply
+    rw [invertL_eq_map]
+    exact List.mem_map.mpr ⟨.null, hin, rfl⟩
+
+theorem gmatchSteps_keep {tbl : ClassTable} {T : BoolTable} (L : NLaws tbl T) {ρ : Env} {o : Obj}
+    (hnl : T.andValueLeaks = false) (ho : objOk tbl T o = true) :
+    ∀ (cs : List MCase), gsinglePats cs = true →
+    GuardsOk tbl T (fun m => singOkM tbl m = true) o cs → ∀ (vs : List Ty),
+    (∃ v ∈ vs, mem tbl o v = true ∧ singOkM tbl v = true) →
+    ∃ r ∈ applySeq tbl T (gcaseKs T cs (gfirstMatch tbl ρ cs o)) vs, mem tbl o r = true ∧ singOkM tbl r = true
+  | [], _, _, vs, hv => by simpa [gcaseKs_nil, applySeq] using hv
+  | c :: cs, hp, hg, vs, hv => by
+    let P : Ty → Prop := fun m => singOkM tbl m = true
+    have C := keepsP_closed tbl T P o
+    have hp' : singlePats (c.pat :: cs.map MCase.pat) = true := by simpa [gsinglePats] using hp
+    -- the guard's constraint is satisfied in the polarity of its truth
+    have hguard : ∀ g, c.guard = some g →
+        (holdsB tbl ρ g o = true → AC.Sat (KeepsP tbl T P o) (g.ac T)) ∧
+        (holdsB tbl ρ g o = false → AC.Sat (KeepsP tbl T P o) (g.ac T).invert) := by
+      intro g hgq
+      obtain ⟨hw, hl⟩ := hg c (by simp) g hgq
+      have := cv_sat (tbl := tbl) (ρ := ρ) (o := o) (G := KeepsP tbl T P o) hnl g hw hl
+      unfold CvOk at this
+      constructor <;> intro hh <;> simp only [hh, Bool.false_eq_true, if_false, if_true] at this <;> exact this.1
+    have hrest : GuardsOk tbl T P o cs := fun c' hc' => hg c' (by simp [hc'])
+    -- the pattern: positive and negative constraint
+    have hpat : (c.pat.matches tbl o = true → ∀ k ∈ (c.pat.ac T).apply, KeepsP tbl T P o k) ∧
+        (c.pat.matches tbl o = false → AC.Sat (KeepsP tbl T P o) (c.pat.ac T).invert) ∧
+        singlePats (cs.map MCase.pat) = true := by
+      cases hpt : c.pat with
+      | singleton l =>
+        rw [hpt] at hp'
+        simp only [singlePats, Bool.and_eq_true] at hp'
+        have hl := mem_singles_of hp'.1
+        refine ⟨?_, ?_, hp'.2⟩
+        · intro hm k hk
+          simp only [ac_singleton_apply, List.mem_singleton] at hk; subst hk
+          simp only [Pat.matches] at hm
+          have hsing : isSingleton tbl l = true := by
+            simp only [singles, List.mem_cons, List.mem_nil_iff, or_false] at hl
+            rcases hl with rfl | rfl | rfl <;> rfl
+          obtain rfl := singleton_eq tbl hsing hm
+          intro m hP hmm
+          exact single_pos_step hl hP hmm
+        · intro hm
+          simp only [Pat.matches] at hm
+          simp only [Pat.ac, Cond.k, AC.invert, K.invert, AC.Sat, Bool.not_true]
+          intro m hP hmm
+          exact single_neg_step L hl ho hm hP hmm
+      | wildcard =>
+        rw [hpt] at hp'
+        refine ⟨?_, ?_, by simpa [singlePats] using hp'⟩
+        · intro _ k hk
+          simp only [ac_wildcard_apply, List.mem_singleton] at hk; subst hk
+          intro m hP hmm
+          exact ⟨m, by simp [applyK, applyPred], hmm, hP⟩
+        · intro hm; simp [Pat.matches] at hm
+      | value _ => rw [hpt] at hp'; simp [singlePats] at hp'
+      | cls _ => rw [hpt] at hp'; simp [singlePats] at hp'
+      | or _ => rw [hpt] at hp'; simp [singlePats] at hp'
+    simp only [gfirstMatch]
+    by_cases ht : c.takes tbl ρ o = true
+    · -- the case runs: pattern and guard constraints are active
+      simp only [ht, if_true, gcaseKs_zero]
+      simp only [MCase.takes, Bool.and_eq_true] at ht
+      apply applySeq_keeps_inv (P := P) _ hv
+      intro k hk
+      simp only [MCase.posKs, MCase.acs] at hk
+      cases hgq : c.guard with
+      | none =>
+        rw [hgq] at hk
+        simp only [AC.applyL, List.append_nil] at hk
+        exact hpat.1 ht.1 k hk
+      | some g =>
+        rw [hgq] at hk ht
+        simp only [AC.applyL, List.append_nil, List.mem_append] at hk
+        rcases hk with hk | hk
+        · exact hpat.1 ht.1 k hk
+        · exact satG_apply C _ ((hguard g hgq).1 ht.2) k hk
+    · -- the case does not run: the inverse of AND(pattern, guard)
+      have htf : c.takes tbl ρ o = false := by simpa using ht
+      simp only [htf, Bool.false_eq_true, if_false, gcaseKs_succ, applySeq_append]
+      apply gmatchSteps_keep L hnl ho cs (by simpa [gsinglePats] using hpat.2.2) hrest
+      apply applySeq_keeps_inv (P := P) _ hv
+      have hsat : AC.Sat (KeepsP tbl T P o) (AC.mkAnd (c.acs T)).invert := by
+        apply sat_mkAnd_invert
+        simp only [MCase.takes, Bool.and_eq_false_iff] at htf
+        rcases htf with hm | hgf
+        · exact ⟨c.pat.ac T, by simp [MCase.acs], hpat.2.1 hm⟩
+        · cases hgq : c.guard with
+          | none => rw [hgq] at hgf; simp at hgf
+          | some g =>
+            rw [hgq] at hgf
+            exact ⟨g.ac T, by simp [MCase.acs, hgq], (hguard g hgq).2 hgf⟩
+      intro k hk
+      exact satG_apply C _ hsat k hk
+
+/-- a `match` statement with singleton patterns / wildcards and arbitrary guards -/
+theorem match_guarded_core {tbl : ClassTable} {T : BoolTable} (L : NLaws tbl T) {ρ : Env} {v : Ty}
+    {cs : List MCase} {o : Obj} (hnl : T.andValueLeaks = false) (hp : gsinglePats cs = true)
+    (hg : GuardsOk tbl T (fun m => singOkM tbl m = true) o cs) (hv : singOk tbl v = true)
+    (ho : objOk tbl T o = true) (hm : mem tbl o v = true) :
+    mem tbl o (gmatchBody tbl T v cs (gfirstMatch tbl ρ cs o)) = true := by
+  unfold gmatchBody
+  rw [mem_constrainKs_iff]
+  obtain ⟨m, hmem, hom⟩ := (mem_iff_member tbl o v).mp hm
+  have hP : singOkM tbl m = true := by
+    simp only [singOk, List.all_eq_true] at hv; exact hv m hmem
+  obtain ⟨r, hr, hor, _⟩ := gmatchSteps_keep L hnl ho cs hp hg (flatten1 v) ⟨m, hmem, hom, hP⟩
+  exact ⟨r, hr, hor⟩
 
 end Pya.C02
